@@ -179,6 +179,7 @@ type State struct {
 	unfolded map[int]bool // recursive spec applications already unfolded in this state (copy on write)
 	nalloc  int           // number of objects moved into symbolic regions on this path
 	wits    []*Term       // witnesses of the existential clauses assumed on this path
+	witTuples [][]*Term   // the same witnesses grouped by the clause that introduced them
 	cutMark int           // cell counter when the innermost cut loop was entered (objects older than that are not fresh inside it)
 	focusNoDefs bool      // a focused proof state without the definitional axioms
 	focusSchemas bool     // a focused proof state that keeps the instances of quantified preconditions
@@ -214,6 +215,7 @@ func (s *State) fork() *State {
 		nalloc:  s.nalloc,
 		cutMark: s.cutMark,
 		wits:    s.wits[:len(s.wits):len(s.wits)],
+		witTuples: s.witTuples[:len(s.witTuples):len(s.witTuples)],
 		focusSchemas: s.focusSchemas,
 		focusNoDefs: s.focusNoDefs,
 		reqFacts: s.reqFacts[:len(s.reqFacts):len(s.reqFacts)],
